@@ -278,7 +278,7 @@ CATS = [('Food', 'Grocery'), ('Food', 'Delivery'), ('Subscriptions', 'Streaming'
 STATIC_TAGS = ['recurring', 'Business', 'LARGE', 'income', 'Transfer', 'needs review', 'q1', 'café', ' padded ', 'ref #1', 'acct # 2',
                # letters that lower() keeps and a case FOLD rewrites (tags are lower-cased, not folded)
                'Fu\u00dfweg', '\u039f\u0394\u039f\u03a3', 'Wa\u017f\u017fer', '\u00b5Bank']
-DYN_TAGS = ['{field.memo}', '{source}', '{extract("REF:(\\\\d+)")}', '{label}', '{split("-", 0)}', '{field.code}', '{txn.location}',
+DYN_TAGS = ['{field.memo}', '{source}', '{extract("REF:(\\\\d+)")}', '{extract("REF:(\\\\d{1,3})")}', '{extract("#(\\\\d{2})")}', '{label}', '{split("-", 0)}', '{field.code}', '{txn.location}',
             '{lowercase(field.memo)}', '{field.nope}', '{ }', '{trim(field.memo)}', '{substring(description, 0, 4)}',
             '{extract(field.code, "#(\\\\d+)")}', '{extract("Foods #(\\\\d+)")}', '{extract(field.code, "REF:\\\\d+ #(\\\\d+)")}',
             # expressions whose letter case matters (\\S is not \\s, "B" is not "b" for split)
